@@ -162,6 +162,12 @@ def run_case(case, ctx):
 				open(pth, 'wb').write(blob)
 			if os.path.exists(out):
 				os.unlink(out)
+		if case.get('warmup'):
+			# the same genome files were processed earlier in this process with other k-mer parameters
+			wspec = next(sp for sp in ((9, 'ATG'), (10, 'AC'), (7, 'TTG')) if sp != tuple(eff))
+			for paths_, tag in (((qpaths if qmode != 'qs' else []), 'q'), ((rpaths if rmode in ('r', 'rl') else []), 'r')):
+				if paths_:
+					run_cli(['dist', '--square', '-o', os.path.join(d, f'warm_{tag}.csv'), '--no-progress', '-k', str(wspec[0]), '-p', wspec[1]] + [x for p_ in paths_ for x in ('-q', p_)])
 		if case.get('stale_output'):
 			# the output path already holds a larger, older matrix: nothing of it may survive
 			with open(out, 'w', encoding='utf-8') as f:
@@ -215,6 +221,8 @@ def run_case(case, ctx):
 			classes.append('output_path_preexists')
 		if list_cwd[1]:
 			classes.append('list_cwd=' + list_cwd[1])
+		if case.get('warmup'):
+			classes.append('after_run_with_other_parameters')
 		if any(any(ch in l for ch in ',"\n') for l in qlabels + rlabels):
 			classes.append('label_needs_quoting')
 		if any(ord(ch) > 127 for l in qlabels + rlabels for ch in l):
@@ -256,6 +264,7 @@ def gen_case(draw, tier):
 		'stale_output': draw(st.sampled_from([False, False, True])),
 		'list_cwd': draw(st.sampled_from([None, 'decoy', None, 'implicit'])),
 		'softmask': draw(st.sampled_from([None, 5, None, 13])),
+		'warmup': draw(st.sampled_from([False, True, False])),
 	}
 	if rmode == 'use_db':
 		case['world'] = draw(Wd.world(max_refs=4, min_refs=1, max_queries=1, nasty_names=False))
